@@ -9,7 +9,7 @@ V = os.path.dirname(os.path.dirname(os.path.abspath(__file__)))
 ENV = dict(os.environ, GOFLAGS="-mod=mod", GOPROXY="off", GOSUMDB="off", GOTOOLCHAIN="local")
 
 # documented in DESIGN.md section 15: kept as seeded changes, not expected to be reported
-KNOWN_UNCAUGHT = {"m6-C15", "m7-C17", "m9-C07"}
+KNOWN_UNCAUGHT = {"m6-C15", "m7-C17", "m9-C07", "m10-C06"}  # m10-C06: its precondition was removed by fix: 2251fdf (caught on the tree before it)
 
 
 def one(name):
